@@ -666,7 +666,8 @@ class Interp:
         elif isinstance(st, ast.For):
             it = self.eval(st.iter, env)
             if isinstance(it, (set, frozenset)):
-                it = sorted(it, key=repr)      # a set of concrete keys
+                it = sorted(it, key=repr, reverse=getattr(
+                    self, "set_order", "") == "reversed")   # a set of concrete keys
             if isinstance(it, dict):
                 it = list(it)
             lazy = isinstance(it, AbsGen) or (hasattr(it, "__next__")
@@ -949,7 +950,11 @@ class Interp:
                 g = e.generators[i]
                 src = self.eval(g.iter, sub)
                 if isinstance(src, (set, frozenset)):
-                    src = sorted(src, key=repr)
+                    # (a set has no order of its own: a rule that wants to
+                    # see whether the code relies on one asks for the
+                    # reverse of the sorted order)
+                    src = sorted(src, key=repr, reverse=getattr(
+                        self, "set_order", "") == "reversed")
                 for x in (src if isinstance(src, AbsGen) or hasattr(
                         src, "__next__") else list(src)):
                     s2 = dict(sub)
@@ -1127,7 +1132,11 @@ class Interp:
                         base.sort(key=lambda v_: self.call_function(
                             k.fn, [v_], k.env), reverse=bool(rv_))
                     elif k is None:
-                        base.sort(reverse=bool(rv_))
+                        try:
+                            base.sort(reverse=bool(rv_))
+                        except TypeError:
+                            # the entries have no order of their own
+                            raise Raised(e, "TypeError")
                     else:
                         raise AnalysisError("sort key")
                     return None
